@@ -394,6 +394,8 @@ func (e *Engine) dischargePath(fn *ssa.Function, po *pathOutcome, pathNo int, w 
 			r.Verdict = "unconfirmed"
 			if ob.Kind == "range" {
 				r.Note += " tracked-range obligation of the algebraic model (engine-only: the bound is on intermediate values, not on inputs)"
+			} else if ob.Kind == "separation" {
+				r.Note += " write-set separation obligation (engine-only: a written object is shared between the two parties; natively this is a potential data race, not a reproducible failure)"
 			} else if ob.Kind == "lemma" {
 				r.Model = full.Model
 				r.Note += " stage lemma refuted by the solver (engine-only obligation; confirmation is attempted through the end-to-end fallback harnesses)"
